@@ -25,7 +25,7 @@ import z3
 from props.common import Candidate, Job, JobResult, result_from_engines
 from symx import patch
 from symx.core import Engine, SymInt, z3val_to_py, mkbool
-from symx.segbytes import SegBytes, symlen
+from symx.segbytes import SegBytes, symlen, symbytearray, symbytes
 
 from ai_edge_quantizer import model_modifier
 
@@ -103,6 +103,9 @@ def h_large(pattern, fix=None):
     mm = model_modifier.ModelModifier.__new__(model_modifier.ModelModifier)
     mm._constant_map = []
     with patch.rebind('ai_edge_quantizer.model_modifier', 'len', symlen), \
+        patch.rebind('ai_edge_quantizer.model_modifier', 'bytearray',
+                     symbytearray), \
+        patch.rebind('ai_edge_quantizer.model_modifier', 'bytes', symbytes), \
         patch.rebind('ai_edge_quantizer.model_modifier', 'flatbuffer_utils',
                      stub_fu):
       total = mm._process_constant_map(model)
@@ -264,7 +267,7 @@ def job_concrete(job):
   cases = []
   for lens in job.args['cases']:
     cases.append((f'synthetic buffers {lens}',
-                  skeletons.const_buffers_model(lens), None))
+                  skeletons.const_buffers_model(lens, raw=True), None))
   for name, recipe in job.args.get('fixtures', []):
     p = os.path.join('/repo/ai_edge_quantizer/tests/models', name)
     with open(p, 'rb') as f:
@@ -308,10 +311,12 @@ def jobs(tier, seed):
                          'fix': dict(zip(pins, vals))}))
       else:
         js.append(Job(name, job_large, {'pattern': list(pattern)}))
-  cases = [[8], [4, 12], [16, 4, 20], [4, None, 8], [0], [4, 0]]
+  cases = [[8], [4, 12], [16, 4, 20], [4, None, 8], [0], [4, 0], [1],
+           [1, 8], [3, 1, 5], [2, 17]]
   fixtures = [('single_fc_bias.tflite', None), ('conv_fc_mnist.tflite', None)]
   if tier == 'thorough':
-    cases += [[4] * 5, [36, 4, 4, 64], [None, 4]]
+    cases += [[4] * 5, [36, 4, 4, 64], [None, 4], [1, 1], [15, 16, 17],
+              [31, 1, 33]]
     fixtures += [('weight_sharing_fcs.tflite', None),
                  ('two_signatures.tflite', None),
                  ('embedding_lookup.tflite', None), ('bmm.tflite', None)]
